@@ -21,16 +21,17 @@ Heap0 == << LObj(<<HInt(3), HInt(1), HInt(2)>>),                       \* h1 uns
             LObj(<<HInt(1), HStr(<<97>>), HInt(1)>>),                   \* h4 mixed, duplicate
             DObj(<< <<<<98>>, HInt(1)>>, <<<<97>>, HInt(2)>> >>),       \* d1
             DObj(<<>>),                                                 \* d2
-            DObj(<< <<<<107>>, LRef(1)>> >>) >>                         \* d3 holds h1
-Names0 == [n1 |-> [h1 |-> LRef(1), h2 |-> LRef(2), h3 |-> LRef(3), h4 |-> LRef(6), d1 |-> DRef(7), d2 |-> DRef(8), d3 |-> DRef(9),
+            DObj(<< <<<<107>>, LRef(1)>> >>),                           \* d3 holds h1
+            DObj(<< <<<<-2, 49>>, HInt(7)>>, <<<<120>>, LRef(1)>>, <<<<-2, 45, 50>>, HStr(<<97>>)>> >>) >>   \* d4: host dict {1: 7, "x": h1, -2: "a"}
+Names0 == [n1 |-> [h1 |-> LRef(1), h2 |-> LRef(2), h3 |-> LRef(3), h4 |-> LRef(6), d1 |-> DRef(7), d2 |-> DRef(8), d3 |-> DRef(9), d4 |-> DRef(10),
                    s1 |-> HStr(<<98, 32, 97>>), n2 |-> HInt(2)]]
 
 NonMutators == BuiltinNames \ (Mutators \cup Relational)
 V(n) == NName(n)
 Neg == NLambda(<<"v">>, NUn("-", V("v")))
 Pick2 == NLambda(<<"p", "q">>, V("q"))
-Args1 == {V("h1"), V("h2"), V("h3"), V("h4"), V("d1"), V("d2"), V("d3"), V("s1"), V("n2"), NVal(VBool(TRUE)), NVal(VNone), Neg, Pick2}
-Data1 == {V("h1"), V("h2"), V("h3"), V("h4"), V("d1"), V("d2"), V("d3"), V("s1")}
+Args1 == {V("h1"), V("h2"), V("h3"), V("h4"), V("d1"), V("d2"), V("d3"), V("d4"), V("s1"), V("n2"), NVal(VBool(TRUE)), NVal(VNone), Neg, Pick2}
+Data1 == {V("h1"), V("h2"), V("h3"), V("h4"), V("d1"), V("d2"), V("d3"), V("d4"), V("s1")}
 Unary == {"len", "str", "keys", "values", "items", "sum", "min", "max", "sorted", "reversed", "enumerate", "pretty", "join", "list",
           "lower", "upper", "strip", "abs", "int", "round", "floor", "ceil", "dict", "split"}
 
